@@ -489,6 +489,7 @@ func checkC34(c *Ctx) string {
 		}
 	}
 
+	checkTimestampFetchUnderLock(c, "C34.6 K7 the client fetches a new batch under its lock")
 	return "Static shape of timestamp generation: every use of db19.timestamp holds db19.tsLock (exception StartTimestamps: before `go ticker()`), every use of core.tsLast/tsCount/tsLimit holds core.tsLock; " +
 		"a store timestamp = X that is not an AddMs step sits on the edge where X compares later than timestamp; in db19.Timestamp every store is timestamp.AddMs(constant>0), every return is preceded by one and returns a value " +
 		"derived from timestamp; server and client split the second at the same millisecond constant, below it the server's step is larger than the largest increment a client takes from one batch " +
